@@ -318,3 +318,38 @@ class UnconditionalFactory(Contract):
 
 
 REGISTRY.append(UnconditionalFactory())
+
+
+class CubeMeasuresWiring(Contract):
+    """CubeMeasures: the weighted / unweighted counts handed to the count classes (valid
+    counts take precedence and switch on NaN differences), squared counts optional."""
+
+    name = MOD + ":CubeMeasures.<wiring>"
+    props = ("C01", "C02", "C04", "C09")
+
+    def run(self, B, cfg):
+        DT = B.enum("enums:DIMENSION_TYPE")
+        dims = (B.stub("rows"), B.stub("cols"))
+        for valid in (False, True):
+            uc, wc, uv, wv, sq = (B.tensor(n, (2, 3), nonneg=True) for n in ("uc", "wc", "uv", "wv", "sq"))
+            cube = B.stub(
+                "cube", ndim=2, dimension_types=(DT.CAT, DT.CAT), unweighted_counts=uc, counts=wc,
+                unweighted_valid_counts=uv if valid else None, weighted_valid_counts=wv if valid else None,
+                weighted_squared_counts=sq,
+            )
+            cm = B.new(MOD + ":CubeMeasures", cube, dims, 0)
+            tag = "valid" if valid else "plain"
+            u, w, s = cm.unweighted_cube_counts, cm.weighted_cube_counts, cm.weighted_squared_cube_counts
+            same = lambda t: B.spec_tensor((2, 3), lambda i, j: B.rd(t, i, j))
+            B.eq_tensor("unweighted-counts:" + tag, u._counts, same(uv if valid else uc))
+            B.eq_tensor("weighted-counts:" + tag, w._counts, same(wv if valid else wc))
+            B.eq_tensor("squared-counts:" + tag, s._counts, same(sq))
+            B.check("unweighted:" + tag, u.diff_nans is valid and u._dimensions is dims)
+            B.check("weighted:" + tag, w.diff_nans is valid and w._dimensions is dims)
+            B.check("squared:" + tag, s.diff_nans is False)
+        cube = B.stub("cube", ndim=2, dimension_types=(DT.CAT, DT.CAT), weighted_squared_counts=None)
+        cm = B.new(MOD + ":CubeMeasures", cube, dims, 0)
+        B.check("squared-absent", cm.weighted_squared_cube_counts is None)
+
+
+REGISTRY.append(CubeMeasuresWiring())
